@@ -6,5 +6,6 @@ CONSTANTS
   HasOld = TRUE
   Split = FALSE
 INVARIANT NeverPoisoned
+INVARIANT OldNeverLost
 INVARIANT FinalAlwaysComplete
 CHECK_DEADLOCK FALSE
